@@ -23,6 +23,12 @@ def Pipes.ofList : List Pipe → Pipes
   | [] => .nil
   | p :: r => .cons p (Pipes.ofList r)
 
+/-- the accumulator of rxsci/data/to_list.py (`acc.append(i)`) over model values -/
+def toListAcc (acc i : Val) : Except Err Val :=
+  match acc with
+  | .list l => .ok (Val.lst (l.toList ++ [i]))
+  | _ => .error "AttributeError"
+
 namespace D
 
 abbrev F1 := Val → Except Err Val
@@ -163,10 +169,7 @@ def fstddev (key : F1) (r : Bool) : Pipe := (fvariance key r).append (.ofList [s
 
 /-- rxsci/data/to_list.py (mux: scan append, reduce; plain: RxPY to_list) -/
 def toList : Stage :=
-  .prim (scanOp (fun acc i => match acc with
-      | .list l => .ok (Val.lst (l.toList ++ [i]))
-      | _ => .error "AttributeError") (Val.lst []) true none)
-    (some toListPlain)
+  .prim (scanOp toListAcc (Val.lst []) true none) (some toListPlain)
 
 /-- rxsci/data/batch.py: the generic `batchG` (scan | filter | map as in the code), lists wrapped as
 values; the plain twin is the same composition of `scan_obs`, RxPY `filter` and `map` -/
